@@ -46,6 +46,7 @@ type propertyPlan struct {
 	Pkgs         []string
 	Extra        func(s *Session, tier string) []*FuncResult // structural / generated-code checks
 	Explain      string
+	SweepsAll    bool // the property is decided by executing every function of the package (ownership sweep)
 }
 
 func hasProp(props []string, id string) bool {
@@ -394,6 +395,14 @@ func runCheck(id, tier string, seed int, overlay map[string][]byte, quiet bool) 
 				}
 			}
 		}
+		if fr.Err != "" && plan.SweepsAll && strings.Contains(fr.Err, "function not found") && !contractMentions(s.CS.Funcs[fr.Name], id) {
+			// The property is decided by executing EVERY function of the package against the field-mode
+			// table, with or without contract, and this function's contract states nothing of its own for
+			// the property: whatever code it held now lives in functions the sweep executes anyway.
+			printf("NOTE property=%s function=%s is no longer in the tree; its contract states nothing tagged %s and the sweep over all functions of the package covers the code wherever it moved\n", id, fr.Name, id)
+			addU(&notes, []string{fr.Name + ": function under contract no longer exists; covered by the whole-package sweep"})
+			continue
+		}
 		if fr.Err != "" {
 			violations++
 			f := filepath.Join(replayDir, mangle(fr.Name)+"_error.json")
@@ -627,3 +636,46 @@ func cmdReplay(args []string) int {
 }
 
 func cmdSelftest(args []string) int { return Selftest(args) }
+
+// contractMentions reports whether any clause of the contract is tagged with a clause of the property (Cxx.y).
+func contractMentions(fc *FuncContract, id string) bool {
+	if fc == nil {
+		return false
+	}
+	has := func(c *Clause) bool {
+		if c == nil {
+			return false
+		}
+		for _, t := range c.Tags {
+			if t == id || strings.HasPrefix(t, id+".") {
+				return true
+			}
+		}
+		return false
+	}
+	for _, c := range fc.Requires {
+		if has(c) {
+			return true
+		}
+	}
+	for _, c := range fc.Ensures {
+		if has(c) {
+			return true
+		}
+	}
+	for _, l := range fc.Loops {
+		for _, c := range l.Invariants {
+			if has(c) {
+				return true
+			}
+		}
+	}
+	for _, h := range fc.Hooks {
+		for _, a := range h.Actions {
+			if has(a.C) {
+				return true
+			}
+		}
+	}
+	return false
+}
